@@ -35,7 +35,7 @@ STYLES = '''<?xml version="1.0" encoding="UTF-8" standalone="yes"?>
 </styleSheet>'''
 
 
-def write_xlsx(path, sheets, names):
+def write_xlsx(path, sheets, names, date1904=False):
     """sheets: [(title, [cell spec])]; cell spec: dict(r, kind, ...)"""
     sst = []
 
@@ -65,7 +65,8 @@ def write_xlsx(path, sheets, names):
                 elif k == 'e':
                     out.append(f'<c r="{r}" t="e"><v>{escape(c["v"])}</v></c>')
                 elif k == 'date':
-                    out.append(f'<c r="{r}" s="1"><v>{c["v"]}</v></c>')
+                    # (the 1904 date system counts from 1904-01-01: the same day has a serial smaller by 1462)
+                    out.append(f'<c r="{r}" s="1"><v>{c["v"] - (1462 if date1904 else 0)}</v></c>')
                 elif k == 'f':
                     t = ' t="str"' if isinstance(c.get('cached'), str) else (' t="b"' if isinstance(c.get('cached'), bool) else '')
                     cv = c.get('cached')
@@ -79,12 +80,16 @@ def write_xlsx(path, sheets, names):
         out.append('</sheetData></worksheet>')
         sheet_xml.append('\n'.join(out))
     wb = ['<?xml version="1.0" encoding="UTF-8" standalone="yes"?>',
-          '<workbook xmlns="http://schemas.openxmlformats.org/spreadsheetml/2006/main" xmlns:r="http://schemas.openxmlformats.org/officeDocument/2006/relationships"><sheets>']
+          '<workbook xmlns="http://schemas.openxmlformats.org/spreadsheetml/2006/main" xmlns:r="http://schemas.openxmlformats.org/officeDocument/2006/relationships">'
+          + ('<workbookPr date1904="1"/>' if date1904 else '') + '<sheets>']
     for i, (title, _) in enumerate(sheets):
         wb.append(f'<sheet name="{escape(title, {chr(34): "&quot;"})}" sheetId="{i + 1}" r:id="rId{i + 1}"/>')
     wb.append('</sheets>')
     if names:
-        wb.append('<definedNames>' + ''.join(f'<definedName name="{n}">{escape(v)}</definedName>' for n, v in names.items()) + '</definedNames>')
+        # a key 'name@k' is a name defined for sheet k only (localSheetId), as Excel makes them when a sheet with named cells is copied
+        wb.append('<definedNames>' + ''.join(
+            (f'<definedName name="{n.split("@")[0]}" localSheetId="{n.split("@")[1]}">{escape(v)}</definedName>' if '@' in n
+             else f'<definedName name="{n}">{escape(v)}</definedName>') for n, v in names.items()) + '</definedNames>')
     wb.append('</workbook>')
     rels = ['<?xml version="1.0" encoding="UTF-8" standalone="yes"?>', '<Relationships xmlns="http://schemas.openxmlformats.org/package/2006/relationships">']
     for i in range(len(sheets)):
@@ -144,6 +149,8 @@ def cases(tier, seed):
             for ignored in itertools.combinations(titles, k):
                 yield dict(titles=titles, ignored=list(ignored), names=(n >= 2))
     yield dict(titles=TITLES[:2], ignored=[], names=True, name_over_empty=True)
+    yield dict(titles=TITLES[:2], ignored=[], names=True, date1904=True)            # a workbook in the 1904 date system
+    yield dict(titles=TITLES[:1], ignored=[], names=False, date1904=True)
 
 
 def oracle(c):
@@ -165,7 +172,7 @@ def oracle(c):
     d = tempfile.mkdtemp(dir=os.path.join(ROOT, 'scratch'))
     fn = os.path.join(d, 'book.xlsx')
     try:
-        write_xlsx(fn, sheets, names)
+        write_xlsx(fn, sheets, names, date1904=bool(c.get('date1904')))
         try:
             mc = xlcalculator.ModelCompiler()
             model = mc.read_and_parse_archive(fn, ignore_sheets=list(c['ignored']))
@@ -222,7 +229,7 @@ def oracle(c):
 
 DRIVERS = [
     Driver('C11/B3.workbooks', cases, oracle, nchunks=8, exhaustive=True,
-           rule='1..4 sheets (titles needing quotes included), each with 19 cells covering every storage form (n, s, inlineStr, b, e, date-styled number, non-ASCII shared string, formulas with numeric / string / boolean / no cached value, a range formula, a cross-sheet formula, two shared-formula groups - down a column and across a row with a $ reference), defined names for a cell / a range / a cell on a quoted sheet, every proper subset of ignored sheets; cell table, cached values before evaluation, names, evaluation == directly built model',
+           rule='1..4 sheets (titles needing quotes included), each with 19 cells covering every storage form (n, s, inlineStr, b, e, date-styled number, non-ASCII shared string, formulas with numeric / string / boolean / no cached value, a range formula, a cross-sheet formula, two shared-formula groups - down a column and across a row with a $ reference), defined names for a cell / a range / a cell on a quoted sheet, every proper subset of ignored sheets; the same in the 1904 date system (date-styled serials smaller by 1462 denote the same days); cell table, cached values before evaluation, names, evaluation == directly built model',
            bound='4 sheets x 19 cells; all subsets of ignored sheets'),
 ]
 
